@@ -451,6 +451,9 @@ def _run_interleaving(rp: dict) -> dict:
     sched = [tuple(x) for x in rp["schedule"]]
     cfg_a = rp["cfg_a"] if "cfg_a" in rp else _variant(rp["a"])   # corpus files name the scenarios, replay files carry them
     cfg_b = rp["cfg_b"] if "cfg_b" in rp else _variant(rp["b"])
+    if rp.get("io_sandbox"):
+        with _IoSandbox():
+            return iso.interleaving(cfg_a, cfg_b, sched, globals_fp=globals_fp)
     return iso.interleaving(cfg_a, cfg_b, sched, globals_fp=globals_fp)
 
 
@@ -656,7 +659,7 @@ def _exec_unit(unit: dict) -> Rec:
     t0 = time.time()
     rec = Rec(_W["tier"])
     try:
-        {"corpus": _do_corpus, "dirty": _do_dirty, "pair": _do_pair, "sched": _do_sched, "order": _do_order}[unit["kind"]](rec, unit)
+        {"corpus": _do_corpus, "dirty": _do_dirty, "pair": _do_pair, "sched": _do_sched, "order": _do_order, "io": _do_io}[unit["kind"]](rec, unit)
     except Exception as e:   # a unit the harness itself cannot run is a broken correspondence obligation, not a silent skip
         import traceback
         rec.oblige(f"rig: unit {unit['kind']}:{unit.get('label', '')} ran", "correspondence", False, traceback.format_exc()[-1500:])
@@ -794,7 +797,11 @@ def _build_units(ctx: Ctx, rng: Rng) -> List[dict]:
             units.append({"kind": "pair", "label": f"{label_a}|{label_b}#{rep}", "la": label_a, "lb": label_b, "cfg_a": cfg_a, "cfg_b": cfg_b,
                           "rng": rng.fork(f"{label_a}{label_b}{rep}"), "b_first": rng.chance(1, 2), "weight": 25 if "uc7" in label_a + label_b else 10})
     units += _sched_units(ctx, rng.fork("sched"))
+    units += _io_units(ctx, rng.fork("io"))
     units += [{"kind": "order", "label": f"order-{i}", "which": i % 3, "rng": rng.fork(f"order{i}"), "weight": 6} for i in range(ctx.scale(3, 9))]
+    only = os.environ.get("C04_ONLY")     # development aid: run the units of some kinds only (the verdict of such a run is not the check's)
+    if only:
+        units = [u for u in units if u["kind"] in only.split(",")]
     return units
 
 
@@ -807,7 +814,12 @@ def _do_corpus(rec: Rec, unit: dict):
             rec.notes.append(f"corpus {f.name}: scenario missing")
             return
         sched = [tuple(x) for x in rp["schedule"]]
-        _interleaving_case(rec, f"corpus:{f.stem}", rp["a"], rp["b"], cfg_a, cfg_b, sched, rec.model_lines, rec.expectations, shrink=False)
+        if rp.get("io_sandbox"):
+            with _IoSandbox():
+                _interleaving_case(rec, f"corpus:{f.stem}", rp["a"], rp["b"], cfg_a, cfg_b, sched, rec.model_lines, rec.expectations, shrink=False,
+                                   extra={"io_sandbox": True})
+        else:
+            _interleaving_case(rec, f"corpus:{f.stem}", rp["a"], rp["b"], cfg_a, cfg_b, sched, rec.model_lines, rec.expectations, shrink=False)
         rec.count("corpus-witness")
     elif rp.get("type") == "schedule-freshness":
         _sched_case(rec, f"corpus:{f.stem}", rp, shrink=False)
@@ -980,7 +992,7 @@ def _do_pair(ctx: Rec, unit: dict):
 
 
 def _variant(spec: Dict) -> Optional[Dict]:
-    """scenario spec of a corpus file: {"scenario": name, "nmne": {...}?, "strip_rng": bool?, "seed": int?}"""
+    """scenario spec of a corpus file: {"scenario": name, "nmne": {...}?, "strip_rng": bool?, "seed": int?, "io": {io_settings}?}"""
     cfg = _load(spec["scenario"])
     if cfg is None:
         return None
@@ -990,6 +1002,8 @@ def _variant(spec: Dict) -> Optional[Dict]:
         cfg = strip_rng(cfg)
     if "seed" in spec:
         cfg = set_seed(cfg, spec["seed"])
+    if "io" in spec:
+        cfg = with_io(cfg, spec["io"])
     return cfg
 
 
@@ -1062,7 +1076,7 @@ def _is_known(sig: dict) -> bool:
 
 
 def _interleaving_case(ctx: "Rec", label: str, la, lb, cfg_a: Dict, cfg_b: Dict, sched: List[Tuple], model_lines: List[str],
-                       expectations: List[Tuple[str, Any]], shrink: bool):
+                       expectations: List[Tuple[str, Any]], shrink: bool, extra: Optional[dict] = None):
     try:
         r = iso.interleaving(cfg_a, cfg_b, sched, globals_fp=globals_fp)
     except Exception as e:
@@ -1087,7 +1101,8 @@ def _interleaving_case(ctx: "Rec", label: str, la, lb, cfg_a: Dict, cfg_b: Dict,
         ctx.case({"k": "il", "pair": label, "d": r["digest"], "i": k, "s": hash(tuple(sched)) & 0xffffff}, prev_b or (e[1] == "step" and e[2] != 0))
         prev_b = False
         k += 1
-    replay_info = {"type": "interleaving", "a": la, "b": lb, "cfg_a": cfg_a, "cfg_b": cfg_b, "schedule": [list(x) for x in sched], "diff": r["diff"]}
+    replay_info = {"type": "interleaving", "a": la, "b": lb, "cfg_a": cfg_a, "cfg_b": cfg_b, "schedule": [list(x) for x in sched], "diff": r["diff"],
+                   **(extra or {})}
     ctx.count("interleave:own-globals-checked")
     if r.get("own_globals") is not None:
         # not F-10 (B overwrites what A reads): A's OWN construction / reset left process globals that depend on who ran before it
@@ -1125,6 +1140,122 @@ def _interleaving_case(ctx: "Rec", label: str, la, lb, cfg_a: Dict, cfg_b: Dict,
             expectations.append(("astep", (label, i, same[i], replay_info)))
         else:
             expectations.append(("skip", None))
+
+
+# ---------------------------------------------------------------------------------------------- (h) instances whose io_settings DIFFER
+# `PrimaiteIO(...)` (one per environment) writes its settings into the process-wide `SIM_OUTPUT`; every SysLog / AgentLog / PacketCapture
+# of EVERY game consults those flags at log time. The inventory classifies SIM_OUTPUT sink-only (file / terminal output is outside the
+# trajectory) - which is only true as long as a log call cannot raise or take another path through the simulation. This family checks
+# exactly that: two instances that differ in ONE output option (and in all of them), both directions, both creation orders.
+IO_BOOLS = ["save_logs", "save_agent_actions", "save_step_metadata", "save_pcap_logs", "save_sys_logs", "save_agent_logs",
+            "write_sys_log_to_terminal", "write_agent_log_to_terminal"]
+IO_BASE = {**scen.QUIET_IO, "sys_log_level": "DEBUG", "agent_log_level": "DEBUG"}     # every log call passes the level gate
+
+
+def io_variants() -> List[Tuple[str, Dict, Dict]]:
+    """(name, io_settings with the option(s) OFF, io_settings with the option(s) ON)"""
+    out = [(o, dict(IO_BASE), {**IO_BASE, o: True}) for o in IO_BOOLS]
+    out.append(("log-levels", {**IO_BASE, "sys_log_level": "CRITICAL", "agent_log_level": "CRITICAL"},
+                {**IO_BASE, "save_sys_logs": True, "save_agent_logs": True}))
+    out.append(("all-options", dict(scen.QUIET_IO), {**{o: True for o in IO_BOOLS}, "sys_log_level": "DEBUG", "agent_log_level": "DEBUG"}))
+    return out
+
+
+def with_io(cfg: Dict, io: Dict) -> Dict:
+    cfg = copy.deepcopy(cfg)
+    cfg["io_settings"] = dict(io)
+    return cfg
+
+
+def io_schedule(b_first: bool, acts: List[int], sa: int, sb: int) -> List[Tuple]:
+    """both creation orders inside ONE schedule as well: B is built before / after A, closed, and a successor is built while A lives"""
+    s: List[Tuple] = [("B", "construct"), ("A", "construct")] if b_first else [("A", "construct"), ("B", "construct")]
+    s += [("A", "reset", 5), ("B", "reset", 6)]
+    for i, a in enumerate(acts):
+        if i == len(acts) // 2:
+            s += [("B", "close"), ("A", "reset", 0), ("B", "construct")]
+        s += [("B", "step", (a * 7 + 1) % max(1, sb)), ("A", "step", a % max(1, sa))]
+    return s
+
+
+class _IoSandbox:
+    """file output of the instances under test goes below a temporary session directory, terminal output nowhere; afterwards the
+    process-wide output settings and the `logging` handlers the instances installed are put back"""
+
+    def __enter__(self):
+        import contextlib
+        import io as _io
+        import logging
+
+        from primaite.session.io import PrimaiteIO
+        from primaite.simulator import SIM_OUTPUT
+        self.tmp = tempfile.mkdtemp(prefix="c04io_", dir=_W.get("tmp"))
+        if not _W.get("tmp"):
+            _TMP.append(self.tmp)
+        # as in the real code every environment of the process gets the SAME session directory - here a temporary one. (The method is
+        # replaced, not `PRIMAITE_PATHS`: that object is an import-only inventory entry which the normalisation would put back.)
+        session = Path(self.tmp) / "sessions"
+
+        def generate_session_path(io_self, timestamp=None):
+            session.mkdir(exist_ok=True, parents=True)
+            return session
+        self.io_cls, self.orig = PrimaiteIO, PrimaiteIO.generate_session_path
+        PrimaiteIO.generate_session_path = generate_session_path
+        self.simout = dict(vars(SIM_OUTPUT))
+        self.loggers = set(logging.root.manager.loggerDict)
+        self.redirect = contextlib.redirect_stdout(_io.StringIO())
+        self.redirect.__enter__()
+        return self
+
+    def __exit__(self, *exc):
+        import logging
+
+        from primaite.simulator import SIM_OUTPUT
+        self.redirect.__exit__(*exc)
+        self.io_cls.generate_session_path = self.orig
+        vars(SIM_OUTPUT).clear()
+        vars(SIM_OUTPUT).update(self.simout)
+        for name, lg in list(logging.root.manager.loggerDict.items()):
+            if isinstance(lg, logging.Logger) and (name not in self.loggers or name.endswith(("_sys_log", "_pcap", "_log"))):
+                for h in lg.handlers[:]:
+                    if isinstance(h, logging.FileHandler) and str(getattr(h, "baseFilename", "")).startswith(self.tmp):
+                        lg.removeHandler(h)
+                        h.close()
+        shutil.rmtree(self.tmp, ignore_errors=True)
+        return False
+
+
+def _io_units(ctx: Ctx, rng: Rng) -> List[dict]:
+    uc2 = _load("data_manipulation")
+    if not uc2:
+        return []
+    base = strip_rng(uc2)        # nothing that draws from a global generator in `step`: the model predicts A unaffected, F-11 stays out
+    units = []
+    for name, off, on in io_variants():
+        for a_on in (False, True):
+            # quick: single options in the direction "A off, B on" only (the reverse direction through log-levels / all-options)
+            if a_on and not ctx.thorough and name not in ("log-levels", "all-options", "save_sys_logs", "save_pcap_logs"):
+                continue
+            for b_first in (False, True):
+                la = f"io:{name}={'on' if a_on else 'off'}"
+                lb = f"io:{name}={'off' if a_on else 'on'}"
+                units.append({"kind": "io", "label": f"{la}|{lb}|{'B' if b_first else 'A'}-first", "la": la, "lb": lb,
+                              "cfg_a": with_io(base, on if a_on else off), "cfg_b": with_io(base, off if a_on else on), "b_first": b_first,
+                              "rng": rng.fork(f"io{name}{a_on}{b_first}"), "weight": 5})
+    return units
+
+
+def _do_io(ctx: Rec, unit: dict):
+    cfg_a, cfg_b = unit["cfg_a"], unit["cfg_b"]
+    sa = len(envrig.proxy_agent_cfg(cfg_a)["action_space"]["action_map"])
+    sb = len(envrig.proxy_agent_cfg(cfg_b)["action_space"]["action_map"])
+    acts = iso.gen_actions(unit["rng"], ctx.scale(6, 14), sa, do_nothing_share=3)
+    sched = io_schedule(unit["b_first"], acts, sa, sb)
+    ctx.count("io-differs:case")
+    ctx.count(f"io-differs:{unit['la']}|{unit['lb']}")
+    with _IoSandbox():
+        _interleaving_case(ctx, unit["label"], unit["la"], unit["lb"], cfg_a, cfg_b, sched, ctx.model_lines, ctx.expectations, shrink=True,
+                           extra={"io_sandbox": True})
 
 
 # ---------------------------------------------------------------------------------------------- (e) episode schedules
